@@ -130,7 +130,8 @@ pub fn run_links(tier: &str, seed: u64, out: &mut Out) {
         ("z", &["../z", "/z", "/z.wxml", "../../z", "./../z", "/a/../z"]),
         ("lib/w", &["../lib/w", "/lib/w", "/lib/w.wxml", "../lib/./w"]),
     ];
-    let names = ["t", "u", "v"];
+    // (names found on Object.prototype: a table lookup must not see them unless a file defines them)
+    let names = ["t", "u", "v", "toString", "constructor", "__proto__"];
     for gi in 0..n {
         let main_path = "pages/main";
         // which names each file defines
